@@ -67,7 +67,7 @@ def u_b_limits(ctx):
         uu, ll = model.usl(gm, unscale=True), model.lsl(gm, unscale=True)
         e.prove(tag + ":unscale-adds-intercept", z3.And(*[z3.And(R(uu[k]) == R(usl[k]) + R(beta[0, k]), R(ll[k]) == R(lsl[k]) + R(beta[0, k]))
                                                       for k in range(t)]))
-        e.prove(tag + ":canary:usl<=lsl", z3.And(*[R(usl[k]) <= R(lsl[k]) for k in range(t)]), expect="fail", timeout_ms=2000)
+        e.prove(tag + ":canary:usl==lsl+1", R(usl[0]) == R(lsl[0]) + 1, expect="fail", timeout_ms=2000)
         return "ok"
     shapes = [(1, 1, 1), (2, 1, 2), (2, 2, 1), (3, 2, 1)] + ([(3, 2, 2), (2, 3, 1)] if ctx.tier == "thorough" else [])
     modeb.run_shapes(ctx, "limits", shapes, body)
@@ -103,3 +103,26 @@ def u_l_lemmas(ctx):
     ctx.prove("closure:selection-(take)-preserves-fixation-at-a-locus",
               [0 <= idx(k), idx(k) < T, 0 <= m, m <= 1, fixed_j], G(m, idx(k), j) == a)
     ctx.assume_note("closure lemmas use the meiosis contract proved under C01 and the TAKE position map of C03")
+
+
+@unit(P, "B[usl_numpy/lsl_numpy on an arbitrary frequency vector == ploidy*sum(u*indicator)]", "B", bounded=True,
+      targets=[GMOD + ":DenseAdditiveLinearGenomicModel.usl_numpy", GMOD + ":DenseAdditiveLinearGenomicModel.lsl_numpy"],
+      note="bounded(shape): nvrnt<=2, ntrait<=2; the frequencies are arbitrary reals in [0,1] (any population size), effects arbitrary reals")
+def u_b_limits_freq(ctx):
+    def body(e, shape, tag):
+        p, t = shape
+        ploidy = 2
+        model, beta, u = _model(p, t)
+        freq = barr.fresh("p", (p,), "float64", 0, 1)
+        usl, lsl = model.usl_numpy(freq, ploidy), model.lsl_numpy(freq, ploidy)
+        for k in range(t):
+            up = z3.RealVal(0)
+            lo = z3.RealVal(0)
+            for j in range(p):
+                uj, pj = R(u[j, k]), R(freq[j])
+                up = up + ploidy * uj * z3.If(z3.If(uj > 0, pj > 0, pj >= 1), 1, 0)
+                lo = lo + ploidy * uj * z3.If(z3.If(uj > 0, pj >= 1, pj > 0), 1, 0)
+            e.prove(tag + ":usl_numpy==definition[trait %d]" % k, R(usl[k]) == up)
+            e.prove(tag + ":lsl_numpy==definition[trait %d]" % k, R(lsl[k]) == lo)
+        return "ok"
+    modeb.run_shapes(ctx, "limits_freq", [(1, 1), (2, 1), (1, 2), (2, 2)], body)
